@@ -30,7 +30,7 @@ class C05(Prop):
         return False
 
     def generate(self, rng, tier):
-        n = 700 if tier == "quick" else 15000
+        n = 1200 if tier == "quick" else 15000
         out = []
         for _ in range(n):
             t = X.gen_tree(rng, rng.choice([2, 3, 4]), root="dict")
